@@ -449,6 +449,8 @@ class Evaluator(object):
                 return K(d.v[slice(parts[0].v, parts[1].v, parts[2].v)])
             if isinstance(d, L) and all(isinstance(x, K) for x in parts):
                 return L(d.elts[slice(parts[0].v, parts[1].v, parts[2].v)])
+            if isinstance(d, Sym) and d.pytype in (str, bytes) and self.lenient:
+                return Sym("slice(%s)" % d.label, pytype=d.pytype)      # (a part of a symbolic text: another text, possibly empty)
             raise AnalysisError("slice not modelled: %s" % dump(e))
         if isinstance(e, ast.Subscript):
             d = self.expr(e.value, env, fi)
@@ -763,6 +765,14 @@ class Evaluator(object):
             if len(args) == 3:
                 return args[2]
             raise _Raise("AttributeError")
+        if fname == "set" and len(args) == 1 and not kwargs and isinstance(args[0], L) and self.prog.resolve(fi.module, f) in (None, "builtin:set") and \
+                all(isinstance(x, K) for x in args[0].elts):
+            # a set built from a list of constants, held as a list without duplicates (membership, add and iteration are what is used)
+            uniq = []
+            for x in args[0].elts:
+                if not any(y.v == x.v and type(y.v) is type(x.v) for y in uniq):
+                    uniq.append(x)
+            return L(uniq)
         if fname in ("tuple", "list") and len(args) == 1 and not kwargs and self.prog.resolve(fi.module, f) in (None, "builtin:" + fname):
             a0 = args[0]
             if isinstance(a0, K) and isinstance(a0.v, (tuple, list)):
@@ -795,6 +805,15 @@ class Evaluator(object):
         if fname in ("any", "all") and len(args) == 1 and isinstance(args[0], L) and not kwargs:
             truths = [self.truth(x) for x in args[0].elts]
             return K(any(truths) if fname == "any" else all(truths))
+        if fname in ("any", "all") and len(args) == 1 and not kwargs and isinstance(f, ast.Name) and f.id not in env:
+            a0 = args[0]
+            if isinstance(a0, K) and isinstance(a0.v, (tuple, list, str, bytes, frozenset, set, dict)):
+                return K(any(a0.v) if fname == "any" else all(a0.v))
+            if isinstance(a0, D):
+                return K(any(a0.items) if fname == "any" else all(a0.items))      # (iterating a dictionary yields its keys)
+            if isinstance(a0, Sym) and self.lenient:
+                # the truth of the members of a symbolic container is not known (a non-empty list can hold only zeros): undecided
+                return Sym("opaque:%s(%s)" % (fname, a0.label))
         if fname == "bool" and len(args) == 1 and not kwargs:
             return K(bool(self.truth(args[0])))
         if fname == "repr" and len(args) == 1 and not kwargs:
@@ -868,6 +887,23 @@ class Evaluator(object):
                     raise _Raise("KeyError")
                 k0 = list(base.items)[-1]
                 return L([K(k0), base.items.pop(k0)])
+        if isinstance(f, ast.Attribute) and f.attr == "pop" and not kwargs and len(args) <= 1 and all(isinstance(a, K) and isinstance(a.v, int) and
+                                                                                                 not isinstance(a.v, bool) for a in args) \
+                and isinstance(f.value, ast.Name) and f.value.id in env:
+            # list.pop() on a local list: a list of constants is held folded (K of a tuple), so the name is rebound
+            cur = env[f.value.id]
+            idx = args[0].v if args else -1
+            if isinstance(cur, K) and isinstance(cur.v, tuple) and getattr(cur, "was_list", True):
+                items = list(cur.v)
+                if not items or not (-len(items) <= idx < len(items)):
+                    raise _Raise("IndexError")
+                got = items.pop(idx)
+                env[f.value.id] = K(tuple(items))
+                return K(got)
+            if isinstance(cur, L):
+                if not cur.elts or not (-len(cur.elts) <= idx < len(cur.elts)):
+                    raise _Raise("IndexError")
+                return cur.elts.pop(idx)
         if isinstance(f, ast.Attribute) and f.attr == "pop" and args and isinstance(args[0], K):
             base = self.expr(f.value, env, fi)
             if isinstance(base, D):
@@ -898,6 +934,13 @@ class Evaluator(object):
                 b0 = self.expr(f.value, env, fi)
             except AnalysisError:
                 b0 = None
+            if isinstance(b0, Sym) and b0.pytype in (bytes, str) and f.attr in ("startswith", "endswith", "lstrip", "rstrip", "strip", "split",
+                                                                               "rpartition", "replace"):
+                # text and bytes do not mix: b"...".startswith("x") / "...".strip(b" ") raise TypeError
+                other = str if b0.pytype is bytes else bytes
+                if any(isinstance(a, K) and isinstance(a.v, other) for a in args) or \
+                        any(isinstance(a, K) and isinstance(a.v, tuple) and a.v and all(isinstance(x, other) for x in a.v) for a in args):
+                    raise _Raise("TypeError")
             if isinstance(b0, K) and isinstance(b0.v, str) and all(isinstance(a, K) for a in args) and not kwargs:
                 try:
                     r0 = getattr(b0.v, f.attr)(*[a.v for a in args])      # constant folding on literals
